@@ -1,16 +1,18 @@
 import Cell2v.Driver.Util
-import Cell2v.Model.MailboxX
+import Cell2v.Model.MailboxT
 import Cell2v.Driver.C09Ring
 import Cell2v.Driver.C09Mpsc
 import Cell2v.Driver.C09Sched
 /-!
 Model driver for C09.  The hooked real mailbox is driven one atomic step at a
 time by a controlling scheduler; every granted step is an op line
-  `step k=<u|s|h|c> pt=<yield point> [msg=<id>] [sk=<n|s|r>] [over=<0|1>]`
+  `step k=<u|s|h|c> pt=<yield point> [msg=<id>] [sk=<n|s|r>] [now=<ns>]`
 and the observation is the mailbox's shared words after the step.  `model`
-replays the same schedule on `FineX.fire` (`Fine` + throughput counter + panicking handlers; a case
-starts with `reset t=<dispatcher throughput>`, a push op carries `pan=1` if the handler of that
-message will panic).  `spec` evaluates the property itself
+replays the same schedule on `FineT.fire` (`Fine` + throughput counter + panicking handlers + the clock and
+the frame budget; a case starts with `reset t=<dispatcher throughput> b=<argument of mailbox.Producer, ms>`, a push op
+carries `pan=1` if the handler of that message will panic; the consumer's "cons.take" and "run.iter" ops carry what the
+clock reads, `now=` ns since the case began, and the MODEL decides from it — `now - beginTime > Producer(b)'s budget` —
+whether run() carries on, begins a pause or takes the Gosched branch).  `spec` evaluates the property itself
 (exactly once, per-sender order, system first, one runner, nothing left
 undelivered at quiescence) on the implementation's observations.
 -/
@@ -33,11 +35,13 @@ def parseSK : Option String → SK
 
 /-- driver state: the extended model plus what the ops announced about the handlers (environment input) -/
 structure DS where
-  x : FineX.St := FineX.init 99
+  t : FineT.St := FineT.init 99 10
   panU : List Nat := []   -- user ids whose handler will panic
   panS : List Nat := []   -- system ids (normal kind) whose handler will panic
 
 /-- (thread kind, yield point) ↦ model label -/
+def DS.x (d : DS) : FineX.St := d.t.x
+
 def labelOf (d : DS) (ws : List String) : Option FineX.Lbl :=
   let k := kv ws "k"
   let pt := kv ws "pt"
@@ -52,9 +56,9 @@ def labelOf (d : DS) (ws : List String) : Option FineX.Lbl :=
   | some "h", some "hp.cas" => b .helperWake
   | some "c", some "cons.take" => b .take
   | some "c", some "run.iter" =>
-    -- `over` is what the CLOCK says (cost > maxProcessCost, computed by the harness from virtual time), not what the
+    -- the clock was advanced to the op's `now=` (see `step`): cost > maxProcessCost is the MODEL's computation, not what the
     -- implementation did: below 100000 counted messages an exhausted budget starts a pause, at or above it run() yields and goes on
-    if kv ws "over" == some "1" then (if d.x.s.um ≥ FineX.maxMsgNumToSmooth then some .iterGosched else b .iterOver) else b .iterOk
+    if FineT.over d.t then (if d.x.s.um ≥ FineX.maxMsgNumToSmooth then some .iterGosched else b .iterOver) else b .iterOk
   | some "c", some "bp.cas" => b .bpCas
   | some "c", some "run.pops" =>
     match d.x.s.sq with
@@ -82,8 +86,8 @@ def labelOf (d : DS) (ws : List String) : Option FineX.Lbl :=
 `dispatcher.Schedule`, entries of the dispatcher queue, and the consumer inside `run()` / before "store idle" -/
 def runnersOf (s : St) : Nat := Abs.runners (Fine.abs s)   -- the quantity `single_runner` bounds by 1
 
-def showState (s : St) (inv esc : String) : String :=
-  s!"st={b01 s.run} um={s.um} sm={s.sm} susp={b01 s.susp} paused={b01 s.paused} cpc={pcName s.c} dq={s.dq} runners={runnersOf s} inv={inv} esc={esc}"
+def showState (s : St) (inv esc : String) (ret : Bool := false) : String :=
+  s!"st={b01 s.run} um={s.um} sm={s.sm} susp={b01 s.susp} paused={b01 s.paused} cpc={if ret then "ret" else pcName s.c} dq={s.dq} runners={runnersOf s} inv={inv} esc={esc}"
 
 def quietB (s : St) : Bool :=
   s.nUp == 0 && s.nSp == 0 && s.nL == 0 && s.nK == 0 && s.nD == 0 && s.dq == 0 && s.c == .wait && !s.hs
@@ -92,14 +96,21 @@ def step (d : DS) (line : String) : DS × String :=
   let ws := words line
   let s := d.x.s
   match ws.head? with
-  | some "reset" => ({ x := FineX.init ((kvNat ws "t").getD 99) }, "ok")
+  | some "reset" => ({ t := FineT.init ((kvNat ws "t").getD 99) ((kvNat ws "b").getD 10) }, "ok")
   | some "step" =>
-    match labelOf d ws with
+    -- time passes: the ops that read the clock say what it reads
+    let d : DS := match kvNat ws "now" with
+      | some n => { d with t := (FineT.fire d.t (.tick (n - d.t.now))).getD d.t }
+      | none => d
+    let tl : Option FineT.Lbl :=
+      if kv ws "k" == some "c" && kv ws "pt" == some "uq.empty" then some .retEmpty else (labelOf d ws).map .x
+    match tl with
     | none => (d, "bad-op")
     | some l =>
-      match FineX.fire d.x l with
+      match FineT.fire d.t l with
       | none => (d, "not-enabled")
-      | some x' =>
+      | some t' =>
+        let x' := t'.x
         let s' := x'.s
         let inv :=
           if s'.dlvU.length > s.dlvU.length then "u:" ++ toString (s'.dlvU.getLast?.getD 0)
@@ -111,10 +122,10 @@ def step (d : DS) (line : String) : DS × String :=
           else "-"
         let pan := kv ws "pan" == some "1"
         let msg := (kvNat ws "msg").getD 0
-        let d' : DS := { d with x := x' }
+        let d' : DS := { d with t := t' }
         let d' := if pan && kv ws "pt" == some "pu.push" then { d' with panU := d'.panU ++ [msg] }
                   else if pan && kv ws "pt" == some "ps.push" then { d' with panS := d'.panS ++ [msg] } else d'
-        (d', showState s' inv esc)
+        (d', showState s' inv esc t'.ret)
   | some "bystander" => (d, "ok")   -- a second mailbox of the same producer is unaffected (and does not affect this one)
   | some "quiesce" =>
     (d, s!"quiet={b01 (quietB s)} st={b01 s.run} um={s.um} sm={s.sm} susp={b01 s.susp} paused={b01 s.paused} du={showIds s.dlvU} ds={showSIds s.dlvS} esc={showIds (d.x.escU ++ d.x.escS.map (·.2))}")
